@@ -266,7 +266,8 @@ def vm_crosscheck(lines, expected, tag, limit=200):
     if len(idx) > limit:
         idx = sorted(rnd.sample(idx, limit))
     os.makedirs(WORK, exist_ok=True)
-    vfile = os.path.join(WORK, "cases_%s.v" % tag)
+    # one file per process: checks of the same property may run side by side (mutant matrix, seeds)
+    vfile = os.path.join(WORK, "cases_%s_p%d.v" % (tag, os.getpid()))
     with open(vfile, "w") as fh:
         fh.write("From Coq Require Import List NArith.\nImport ListNotations.\n"
                  "From PyFS Require Import Run.Dispatch.\nLocal Open Scope N_scope.\n")
@@ -295,9 +296,18 @@ def vm_crosscheck(lines, expected, tag, limit=200):
             os.remove(vfile[:-2] + ext)
         except OSError:
             pass
+    try:
+        os.remove(os.path.join(WORK, "." + os.path.basename(vfile)[:-2] + ".aux"))
+    except OSError:
+        pass
     if not m:
         return 0, ["coqc failed on %s: %s" % (vfile, p.stdout[-1500:])]
     good, badn = int(m.group(1)), int(m.group(2))
+    if badn == 0:
+        try:
+            os.remove(vfile)        # kept only when it is the evidence of a disagreement
+        except OSError:
+            pass
     mism = [] if badn == 0 else ["%d of %d sampled cases differ between vm_compute and the "
                                  "extracted binary (%s)" % (badn, good + badn, vfile)]
     return good + badn, mism
